@@ -18,6 +18,7 @@ import (
 
 	mail "github.com/wneessen/go-mail"
 
+	"verif/cmsverify"
 	"verif/hx"
 	"verif/mapseam"
 	"verif/mimeread"
@@ -321,7 +322,7 @@ func c11Build(cfg c11Cfg, dir string) (*mail.Msg, error) {
 
 // c11Comparable reduces an output to what must be stable: everything, or for S/MIME the signed entity plus the
 // top-level header without the (per-render random) boundary parameter.
-func c11Comparable(raw []byte, smime bool) ([]byte, string) {
+func c11Comparable(raw []byte, smime bool, verify ...bool) ([]byte, string) {
 	if !smime {
 		return raw, ""
 	}
@@ -336,7 +337,17 @@ func c11Comparable(raw []byte, smime bool) ([]byte, string) {
 		}
 		hdr = append(hdr, f.Name+": "+f.Value)
 	}
-	return []byte(strings.Join(hdr, "\r\n") + "\r\n\r\n" + string(e.Children[0].Raw)), ""
+	// the signature value is per-render, but in EVERY rendering it has to cover the entity that was rendered with it
+	prob := ""
+	if len(verify) > 0 && !verify[0] {
+		// (what a server received went through the DATA writer, which turns the bare LFs of 8bit content into CRLF: that
+		// is transport, not rendering, and not judged here)
+	} else if der, derr := e.Children[1].DecodeBody(); derr != nil {
+		prob = fmt.Sprintf("signature part cannot be decoded: %v", derr)
+	} else if _, verr := cmsverify.Verify(der, e.Children[0].Raw); verr != nil {
+		prob = fmt.Sprintf("the signature does not cover the entity it was rendered with: %v", verr)
+	}
+	return []byte(strings.Join(hdr, "\r\n") + "\r\n\r\n" + string(e.Children[0].Raw)), prob
 }
 
 func c11Exec(r *vf.Run, k c11Case, dir string) []finding {
@@ -356,7 +367,7 @@ func c11Exec(r *vf.Run, k c11Case, dir string) []finding {
 		cfgCls += "/src=" + c11Srcs[k.Cfg.Src] + "/fenc=" + []string{"b64", "8bit", "qp"}[k.Cfg.FEnc]
 	}
 	compare := func(opName string, step int, got []byte, kStart int) {
-		cmp, prob := c11Comparable(got, smime)
+		cmp, prob := c11Comparable(got, smime, opName != "Send")
 		if prob != "" {
 			add("smime-structure/"+cfgCls, "%s (op %d %s): %s", cfgCls, step, opName, prob)
 			return
